@@ -11,7 +11,11 @@ EXTRA = {"C01a": ["C06"], "C01b": ["C05"], "C02a": ["C04"], "C02b": ["C04"], "C0
          "C12d": ["C13"], "C13c": ["C18"], "C13d": ["C12"], "C17c": ["C18"],
          # round 3 (ids ending in e / f)
          "C01e": ["C08"], "C01f": ["C05"], "C02e": ["C08"], "C02f": ["C04"], "C03e": ["C05"], "C03f": ["C10"], "C04f": ["C05", "C08"], "C07e": ["C10"], "C07f": ["C03"],
-         "C11f": ["C18"], "C12e": ["C13", "C18"], "C13e": ["C12"], "C15e": ["C14"]}
+         "C11f": ["C18"], "C12e": ["C13", "C18"], "C13e": ["C12"], "C15e": ["C14"],
+         # round 4 (ids ending in g / h)
+         "C01g": ["C05"], "C03g": ["C10"], "C03h": ["C08", "C10"], "C04g": ["C02"], "C05h": ["C01"], "C06g": ["C14"], "C06h": ["C05"], "C07g": ["C05"], "C07h": ["C05"],
+         "C08h": ["C02"], "C09g": ["C10"], "C10g": ["C05"], "C10h": ["C08"], "C11g": ["C18"], "C12h": ["C18"], "C13g": ["C18"], "C13h": ["C12"], "C14h": ["C06"],
+         "C16h": ["C05", "C07"], "C17g": ["C18"], "C17h": ["C18"]}
 args = sys.argv[1:]; tier = "quick"
 if "--tier" in args: i = args.index("--tier"); tier = args[i + 1]; del args[i:i + 2]
 ids = args or sorted(os.path.basename(d) for d in glob.glob(ROOT + "/seeded/C*"))
